@@ -104,6 +104,8 @@ func genDoc(rnd *rand.Rand) *string {
 	}
 	if rnd.Intn(6) == 0 {
 		b.WriteString(pick(rnd, separators))
+	} else if n > 0 && rnd.Intn(6) == 0 {
+		b.WriteString("'") // the text ends with an apostrophe directly after its last word
 	}
 	s := b.String()
 	return &s
@@ -129,6 +131,9 @@ func genSearch(rnd *rand.Rand) string {
 	sep := " "
 	if rnd.Intn(5) == 0 {
 		sep = pick(rnd, separators)
+	}
+	if rnd.Intn(10) == 0 {
+		return strings.Join(parts, sep) + "'"
 	}
 	return strings.Join(parts, sep)
 }
